@@ -9,6 +9,9 @@ NOTE_COMMON = ("Trusted: go/ssa lowering (x/tools v0.29.0), the symgo executor's
                "in the evidence file (coverage.bounds / coverage.outside_claim) and DESIGN.md. unknown/timeout/unsupported are reported "
                "as INCONCLUSIVE, never as success or violation. ")
 claimed = {
+ 'C13': dict(cat='model_checking', ref='5/C13',
+   text="Library encoders (SnssaiToNas, RejectedSnssaiToNas, RejectedNssaiToNas, TaiListToNas, PartialServiceAreaListToNas, LadnToNas) run symbolically on lists of concrete shape with every SST/SD/TAC/PLMN digit symbolic; their output is decoded field by field by assertions written from the TS 24.501 layouts and proved equal to the input lists. Library decoders (SnssaiToModels, RequestedNssaiToModels, LadnToModels) run on reference encodings of every mix of legal entry lengths and are proved to recover the lists exactly; illegal and truncated entry lengths are proved to be errors.",
+   note="List sizes bounded (1..3 entries quick, up to 6 thorough)."),
  'C12': dict(cat='model_checking', ref='5/C12',
    text="Real nasConvert/nasType identity conversions (with the real encoding/hex, strconv, math/bits code) are executed on symbolic octets / digit strings and proved equal to references written from TS 24.501 9.11.3.4 / TS 24.008: PLMN both ways, all 2^24 AMF ids both ways and against the GUTI accessors, GUTI wire->text->wire and acceptance of exactly the well-formed texts over all strings of length 0..24, SUCI (IMSI/NAI) rendering and agreement of the MobileIdentity5GS getters, IMEI/IMEISV, 5G-S-TMSI.",
    note="String lengths are concrete case splits with symbolic characters; SUCI scheme output <= 4 (8) octets."),
